@@ -31,6 +31,11 @@ type scriptResolver struct {
 	mu      sync.Mutex
 	zones   map[string]answer
 	queries []string
+
+	// pipeline path only (pipe_test.go): when the answer is delivered and
+	// whether the lookup context is honoured; reset by set().
+	mode     dnsMode
+	watchdog int
 }
 
 func dnsKey(name string) string { return strings.TrimSuffix(lowerASCII(name), ".") }
@@ -49,6 +54,7 @@ func (r *scriptResolver) set(z map[string]answer) {
 	r.mu.Lock()
 	r.zones = z
 	r.queries = r.queries[:0]
+	r.mode = dnsMode{}
 	r.mu.Unlock()
 }
 
@@ -60,9 +66,18 @@ func (r *scriptResolver) nQueries() int {
 
 func (r *scriptResolver) LookupTXT(ctx context.Context, name string) ([]string, error) {
 	r.mu.Lock()
-	defer r.mu.Unlock()
+	idx := len(r.queries)
 	r.queries = append(r.queries, name)
 	a, ok := r.zones[dnsKey(name)]
+	m := r.mode
+	r.mu.Unlock()
+	r.wait(ctx, m, idx)
+	if m.honourCtx {
+		// what net.Resolver does when the lookup context is cancelled
+		if err := ctx.Err(); err != nil {
+			return nil, err
+		}
+	}
 	if !ok {
 		return nil, nxErr(name)
 	}
